@@ -233,6 +233,7 @@ var kept []keptClone
 
 func main() {
 	r := lib.NewReport("C01")
+	defer r.Guard()
 	one, two := 1, 2
 	pOne := &one
 	var nilInt *int
